@@ -74,6 +74,33 @@ def r1_ipc_weights(ctx):
     kc = [c for c in calls_in(cv.node) if call_name(c) == "ipc_kernel"]
     ok = len(kc) == 1 and all(dotted(kw(kc[0], k)) == k for k in ("coupling", "diagonal_coupling", "anisotropic_coupling"))
     ctx.check(ok, cv.qual, "kernel built from the like-named couplings" if ok else "couplings are cross-wired into the kernel", where=cv, node=kc[0] if kc else cv.node)
+    # "a uniform frame is unchanged" - borders included: on every path the result is the convolution of
+    # the input with that kernel, the frame being continued beyond its edges by its own level (filled with
+    # the frame's mean, or extended / wrapped / mirrored); zero filling darkens the border of a flat frame
+    from sa.paths import enumerate_paths
+
+    inp = cv.params[0]
+    n_ret = 0
+    for q_ in enumerate_paths(cv.node.body):
+        if q_.exit != "return":
+            continue
+        n_ret += 1
+        v_ = q_.value
+        okp, why = False, f"returns `{norm(v_)[:70]}`" if v_ is not None else "returns nothing"
+        if isinstance(v_, ast.Call) and call_name(v_).split(".")[-1] in ("convolve_fft", "convolve", "convolve2d"):
+            a0 = arg_or_kw(v_, 0, "array") or arg_or_kw(v_, 0, "in1")
+            a1 = arg_or_kw(v_, 1, "kernel") or arg_or_kw(v_, 1, "in2")
+            b = kw(v_, "boundary")
+            fv = kw(v_, "fill_value") or kw(v_, "fillvalue")
+            bval = b.value if isinstance(b, ast.Constant) else None
+            k_ok = isinstance(a1, ast.Call) and call_name(a1) == "ipc_kernel"
+            edge_ok = bval in ("extend", "wrap", "symm") or (bval == "fill" and fv is not None and norm(fv) in (f"np.mean({inp})", f"numpy.mean({inp})", f"{inp}.mean()", f"np.nanmean({inp})"))
+            okp = a0 is not None and dotted(a0) == inp and k_ok and edge_ok
+            why = "convolution of the input with ipc_kernel(...), edges continued at the frame's own level" if okp else (f"the frame is continued beyond its edges with boundary={norm(b) if b is not None else None}, fill_value={norm(fv) if fv is not None else None}: a uniform frame is not a fixed point at the border" if k_ok and a0 is not None and dotted(a0) == inp else f"convolves {norm(a0) if a0 is not None else None} with {norm(a1)[:40] if a1 is not None else None}")
+        if not okp:
+            why = f"when {q_.cond_texts()[:2]} the result is not the mean-extended convolution with the kernel: " + why if q_.conds else why
+        ctx.check(okp, cv.qual + "#edges", why, where=cv, node=q_.exit_node or cv.node)
+    ctx.floor(n_ret, 1)
 
 
 def _innermost_loops(f):
@@ -348,4 +375,24 @@ def r6_clusters_land_in_their_pixel(ctx):
     r2_binning(ctx)
 
 
-RULES = [r6_clusters_land_in_their_pixel, r1_ipc_weights, r2_conservation, r3_no_lost_update, r4_simple_laws, r5_clamps_and_siblings]
+def r7_trap_memory_survives(ctx):
+    """"Pixel charge plus trapped charge constant over a step": the trapped charge lives in detector.persistence between steps; the persistence models create that memory only when the detector has none (`not detector.has_persistence()`), never replace an existing one (which would drop the trapped charge)."""
+    from sa.astutil import enclosing_tests, stores
+
+    n = 0
+    for name in ("simple_persistence", "persistence"):
+        f = ctx.func(f"{PER}:{name}")
+        det = f.params[0]
+        sts = [st for st, t in stores(f.node, lambda t: dotted(t) == f"{det}.persistence")]
+        if not sts:
+            ctx.fail(f.qual + "#memory", "the model never creates the detector's persistence memory", where=f, node=f.node)
+            continue
+        for st in sts:
+            n += 1
+            ts = [(norm(expand(f, t)), pol) for t, pol in enclosing_tests(st)]
+            ok = ts == [(f"{det}.has_persistence()", False)]
+            ctx.check(ok, f.qual + "#memory-created-once", "the memory is created only when the detector has none" if ok else f"the detector's persistence memory is replaced under {ts}: trapped charge held from earlier steps is dropped (pixel + trapped charge is not conserved)", where=f, node=st)
+    ctx.floor(n, 2)
+
+
+RULES = [r7_trap_memory_survives, r6_clusters_land_in_their_pixel, r1_ipc_weights, r2_conservation, r3_no_lost_update, r4_simple_laws, r5_clamps_and_siblings]
